@@ -8,7 +8,10 @@ open Zutil
 
 let zi s = z_of_int (int_of_string s)
 (* Sys.argv.(2) = "old" runs the transcription of the code before the repairs (historical witnesses only) *)
-let ver = if Array.length Sys.argv > 2 && Sys.argv.(2) = "old" then Old else Cur
+let flags = if Array.length Sys.argv > 2 then String.split_on_char ',' Sys.argv.(2) else []
+let ver = if List.mem "old" flags then Old else Cur
+(* finer switches, set by the check when a regression witness shows that the library is in the state before a repair *)
+let ver_h5create = if List.mem "old" flags || List.mem "h5create-old" flags then Old else Cur
 (* nesting of chase <-> get_node_id: the current code allows exactly ADF_MAXIMUM_LINK_DEPTH activations; for the old
    code the number stands for the C stack *)
 let fuel = nat_of_int (match ver with Cur -> 100 | Old -> 48)
@@ -41,7 +44,7 @@ let run () =
     if not (is_open f) then print_string "err other\n" else
     let p = Hashtbl.find paths f in
     if adf then (let (s', r) = adf_mutate ver !st p o in st := s'; pr_res r)
-    else (let (d', r) = h5_mutate !st.a_disk p o in set_disk d'; pr_res r) in
+    else (let (d', r) = h5_mutate ver_h5create !st.a_disk p o in set_disk d'; pr_res r) in
   let get (i : z list * z) (w:int) : result =
     if adf then (let (s', a) = adf_read ver fuel !st i (z_of_int w) in st := s';
                  match a with AVal r -> r | AErr e -> failwith (eclass e))
@@ -72,6 +75,20 @@ let run () =
           push_env (); print_string "ok\n"
       | ["pathadd"; p] -> if p = "-" then print_string "err other\n" else (plist := !plist @ [bytes_of_hex p]; push_env (); print_string "ok\n")
       | ["pathdel"] -> plist := []; push_env (); print_string "ok\n"
+      (* the mid-level setters: the list transitions are the Coq definitions mll_set_path / mll_add_path / mll_configure *)
+      | [("setpath" | "addpath" | "cfgset" | "cfgadd") as op; p] ->
+          let arg = if p = "NULL" then None else Some (bytes_of_hex p) in
+          let e0 = !st.a_env in
+          let (e1, ok) = (match op with "setpath" -> mll_set_path e0 arg | "addpath" -> mll_add_path e0 arg
+                                      | "cfgset" -> mll_configure (z_of_int 1) e0 arg | _ -> mll_configure (z_of_int 2) e0 arg) in
+          plist := e1.e_list; push_env (); print_string (if ok then "ok\n" else "err other\n")
+      (* a create that is expected to be refused: the handle is not kept *)
+      | ["tryc"; f; pp; u; nm] ->
+          let f = int_of_string f in
+          if not (is_open f) then print_string "err other\n" else
+          let p = Hashtbl.find paths f in
+          if adf then (let (_, r) = adf_mutate ver !st p (OCreate (zi pp, zi u, bytes_of_hex nm)) in pr_res r)
+          else (let (_, r) = h5_mutate ver_h5create !st.a_disk p (OCreate (zi pp, zi u, bytes_of_hex nm)) in pr_res r)
       | ["chdir"; _] -> print_string "ok\n"
       | ["dbg"] ->
           List.iteri (fun k (sl : slot) -> Printf.eprintf "slot %d use=%d name=%s links=%s\n" k (int_of_z sl.sl_use)
